@@ -131,10 +131,19 @@ def fieldVal (fields : List (String × Field)) (f : String) : Val :=
   | some (_, .scalar v) => v
   | _ => .nil
 
+/-- the receiver of `a.m(..)`: an injected object, else a local holding (a pointer to) one -/
+def Env.receiver (e : Env) (a : String) : Option Obj :=
+  match e.lookupBase a with
+  | some o => some o
+  | none =>
+    match e.lookupVar a with
+    | some (.other _ id) => (e.entryAt id).map (·.2)
+    | _ => none
+
 def execMethod (env : Env) (name : String) (args : List Val) : Res Val × Env :=
   match splitDots name with
   | [a, m] =>
-    (match env.lookupBase a with
+    (match env.receiver a with
      | some (.struct true fields) =>
        (match methodParams m with
         | none => (.err none, env)                       -- MethodByName invalid
@@ -151,16 +160,14 @@ def execMethod (env : Env) (name : String) (args : List Val) : Res Val × Env :=
           | none, _ => (.panic, env))
      | some (.struct false _) => (.err none, env)        -- value receiver has no pointer methods
      | some _ => (.err none, env)
-     | none => match env.lookupVar a with
-        | some _ => (.err none, env)
-        | none => (.err none, env))
+     | none => (.err none, env))
   | _ => (.err none, env)
 
 /-- DataContext.ExecThreeLevel: `S.Sub.Mark(x)` on the pointer-injected struct records an event. -/
 def execThree (env : Env) (name : String) (args : List Val) : Res Val × Env :=
   match splitDots name with
   | [a, b, m] =>
-    (match env.lookupBase a with
+    (match env.receiver a with
      | some (.struct true _) =>
        if b == "Sub" && m == "Mark" then
          (match prepArgs [.int64] args with
